@@ -5,6 +5,7 @@
 -/
 import WowVerif.Lemmas.C19
 import WowVerif.Lemmas.C19Buf
+import WowVerif.Lemmas.Bytes
 import WowVerif.Lemmas.C19Close
 import WowVerif.Gen.Locks
 namespace Wv.C19
@@ -65,6 +66,22 @@ theorem find_data_within_array (name : Wv.Bytes) :
       92 ∉ name.drop (Wv.Buf.plainStart name) :=
   ⟨(Wv.Buf.findData_inside name).1, (Wv.Buf.findData_inside name).2.1, (Wv.Buf.findData_inside name).2.2.1,
    Wv.Buf.plainStart_no_sep name⟩
+
+/-- SFileGetFileInfo: a value of `need` bytes is written only into a buffer of at least `need` bytes, and then exactly
+    `need` bytes are written -/
+theorem info_within_buffer (need value cap : Nat) :
+    (∀ w, Wv.Buf.info need value cap = some w → w.length = need ∧ need ≤ cap) ∧
+    (Wv.Buf.info need value cap = none ↔ cap < need) := by
+  unfold Wv.Buf.info
+  constructor
+  · intro w h
+    by_cases hc : cap ≥ need
+    · rw [if_pos hc] at h; simp only [Option.some.injEq] at h; subst h
+      exact ⟨Wv.natLE_length need value, hc⟩
+    · rw [if_neg hc] at h; cases h
+  · by_cases hc : cap ≥ need
+    · simp [hc]
+    · simp [hc]; omega
 
 example : Wv.Buf.archiveName [97, 98] 3 = some [97, 98, 0] ∧ Wv.Buf.archiveName [97, 98] 2 = none := by decide
 example : Wv.Buf.plainStart [97, 92, 98, 92, 99, 100] = 4 := by decide
